@@ -443,7 +443,17 @@ func runOn(en *env, c *Chain) (fails []failure, out outcome, reuse *env) {
 	// 3. afterwards the runtime is idle and usable. After a foreign Go panic the property promises nothing.
 	out = outcome{crossing: hx.Crossings}
 	out.key = fmt.Sprintf("%d|%d|%s", exp.Final.Kind, hx.Kind, logShape(en.log))
-	if hx.Kind != hxForeign && !(obs.Panicked && hx.Kind != hxPanic) {
+	if hx.Kind == hxForeign {
+		// not judged; the runtime is reused only if it happens to be idle and usable
+		if a, b := en.idle, goja.VerifIdle(en.r); len(fails) == 0 && obs.Panicked {
+			a.PC, b.PC = 0, 0
+			if a == b && en.probe() == "" {
+				reuse = en
+			} else {
+				out.key += "|not-idle-after-foreign-panic"
+			}
+		}
+	} else if !(obs.Panicked && hx.Kind != hxPanic) {
 		if hx.MayClear {
 			en.r.ClearInterrupt()
 		}
